@@ -100,6 +100,7 @@ void battery(Family* f, const i64* fcfg, Sk& s, int variant) {
 
 // ================================================================== C11
 struct C11World: World {
+  static bool tier_of(const Plan& p) { for (const Step& s : p.steps) if (s.kind == OP_ONLY && s.a == -2) return true; return false; }   // thorough plans carry a marker step
   const char* name() const override { return "c11" GROUP_NAME; }
   const char* step_name(int k) const override {
     switch (k) { case OP_FEED: return "feed"; case OP_MERGE: return "merge"; case OP_MERGE_MOVE: return "merge_move"; case OP_RESET: return "reset"; case OP_ONLY: return "only";
@@ -113,6 +114,7 @@ struct C11World: World {
     f->gen_cfg(rc, p.cfg, tier);
     int n = static_cast<int>(rp.range(0, 5));
     gen_history(rp, p.steps, n, tier ? 1200 : 150, true);
+    if (tier) { Step m; m.kind = OP_ONLY; m.a = -2; m.b = -1; m.c = -1; p.steps.push_back(m); }
     return p;
   }
   void execute(const Plan& p, Ctx& ctx) override {
@@ -125,7 +127,7 @@ struct C11World: World {
     int idx = 0;
     for (const Step& s : p.steps) {
       ctx.begin_step(idx++, s.kind);
-      if (s.kind == OP_ONLY) { only_kind = s.a; only_n = s.b; only_val = s.c; continue; }
+      if (s.kind == OP_ONLY) { if (s.a != -2) { only_kind = s.a; only_n = s.b; only_val = s.c; } continue; }
       apply_history_step(f, fcfg, *sk, s);
     }
     if (!sk->variant_ok(variant)) { ctx.probe("variant_not_applicable"); return; }
@@ -140,7 +142,8 @@ struct C11World: World {
     { ReadResult r = read_bytes(*sk, variant, img.data(), size); if (r.threw) ctx.fail(fp("C11", *sk, variant, "bytes", "valid-image-rejected"), r.what); }
     // ---- every strict prefix
     std::vector<size_t> lens;
-    if (size <= 4096) for (size_t n = 0; n < size; n++) lens.push_back(n);
+    const size_t full = p.cfg.size() > 0 && tier_of(p) ? 4096 : 1536;   // images up to this size get every prefix length
+    if (size <= full) for (size_t n = 0; n < size; n++) lens.push_back(n);
     else { for (size_t n = 0; n < 256; n++) lens.push_back(n); for (size_t n = 256; n < size - 256; n *= 2) lens.push_back(n); for (size_t n = size - 256; n < size; n++) lens.push_back(n); }
     u64 rejected = 0, accepted_same = 0;
     for (int path = 0; path < 2; path++) {
